@@ -80,7 +80,11 @@ def make_data(rng, ndim=None, label='d'):
     d.add_component(k.reshape(shape), 'k')
     cats = np.array([rng.choice(['a', 'b', 'c', 'dd']) for _ in range(n)])
     d.add_component(CategoricalComponent(cats.reshape(shape)), 'c')
-    d['z'] = d.id['x'] + d.id['y']          # derived
+    d['z'] = d.id['x'] + d.id['y']          # derived (arithmetic)
+    from glue.core.component_id import ComponentID
+    from glue.core.parse import ParsedCommand, ParsedComponentLink
+    pid = ComponentID('p', parent=d)        # derived (parsed expression)
+    d.add_component_link(ParsedComponentLink(pid, ParsedCommand('{a} * 2 + 1', {'a': d.id['x']})))
     return d
 
 
@@ -119,7 +123,7 @@ def leaf_factories(rng, d):
     from glue.core import roi as RO
     from glue.core.parse import ParsedCommand, ParsedSubsetState
     from glue.viewers.image.pixel_selection_subset_state import PixelSubsetState
-    num = [d.id['x'], d.id['y'], d.id['k'], d.id['z']] + list(d.pixel_component_ids) + list(d.world_component_ids)
+    num = [d.id['x'], d.id['y'], d.id['k'], d.id['z'], d.id['p']] + list(d.pixel_component_ids) + list(d.world_component_ids)
     px = list(d.pixel_component_ids)
     ops = [operator.gt, operator.ge, operator.lt, operator.le, operator.eq, operator.ne]
     r = rng
@@ -170,7 +174,7 @@ def leaf_factories(rng, d):
     fs.append(('Pixel', lambda: PixelSubsetState(d, [slice(r.choice([0, 1]), 2) for _ in range(d.ndim)])))
     fs.append(('Base', lambda: S.SubsetState()))
     fs.append(('Parsed', lambda: ParsedSubsetState(ParsedCommand('{a} %s %s' % (r.choice(['>', '<=', '==']), val()), {'a': att()}))))
-    fs.append(('FloodFill', lambda: S.FloodFillSubsetState(d, d.id['y'], tuple(r.randrange(s) for s in d.shape), r.choice([1.2, 2.0]))))
+    fs.append(('FloodFill', lambda: S.FloodFillSubsetState(d, r.choice([d.id['y'], d.id['z'], d.id['p'], d.id['k']]), tuple(r.randrange(s) for s in d.shape), r.choice([1.2, 2.0]))))
     if d.ndim == 1:
         fs.append(('CategoricalROI2D', lambda: S.CategoricalROISubsetState2D({'a': {'a'}, 'b': {'b', 'c'}, 'c': set(r.sample('abc', 1))}, d.id['c'], d.id['c'])))
         fs.append(('CategoricalMultiRange', lambda: S.CategoricalMultiRangeSubsetState({'a': [lohi()], 'dd': [lohi(), lohi()]}, d.id['c'], att())))
